@@ -102,6 +102,9 @@ class Block(Entity):
                                        name, type_, positions)
         except Exception as exp:
             msg = "MultiTag Creation Failed"
+            if name in multi_tags:
+                # do not leave a half-built multi tag behind
+                del multi_tags[name]
             if poscreated:
                 del self.data_arrays["{}-positions".format(name)]
             else:
